@@ -142,11 +142,21 @@ def realloc_nonzero_rule(prog, rep, only_files=None):
     from .. import poly
     from ..poly import Lin
     n = 0
+    # The library states what a function requires of its caller as an assertion; this rule proves the size non-zero *given* those
+    # requirements.  In a configuration built with NDEBUG the same requirement holds (the callers are the same) but is no longer
+    # written in the function, so there is nothing to prove it from: the rule counts its sites there and decides them in the
+    # configurations that keep the assertions.
+    ndebug = "-DNDEBUG" in (getattr(prog.config, "extra", None) or [])
     for f in prog.all_funcs():
         if only_files is not None and f.file not in only_files:
             continue
         cs = list(f.calls("realloc"))
         if not cs:
+            continue
+        if ndebug:
+            for c in cs:
+                n += 1
+                rep.unknown("REALLOC-nonzero", "%s in %s" % (c.text[:50], f.name), c.where, "decided in the configurations that keep the assertions (this one is built with NDEBUG)")
             continue
         try:
             A = poly.Analysis(f, quiet={"realloc", "free", "memcpy", "memmove", "memset"}).run()
